@@ -46,4 +46,50 @@ PROPS = {
         "level_note": "The theorem is about the word arithmetic (model); the actual memory access is not exhibited by the model. "
                       "C-vs-Rust agreement of commit/validate/rollback/ff tokens is differential (implementation-only predicate), not proved.",
     },
+    "C09": {
+        "runner": "Run09",
+        "theorems": ["C09_rule_repetition_bounded", "C09_rule_repetition_unbounded", "C09_rule_repetition_language",
+                     "C09_rule_repetition_language_unbounded", "C09_nested_repetition", "C09_optional", "C09_star",
+                     "C09_plus", "C09_regex_repetition", "C09_count_set_decides"],
+        "rule": "exhaustive 0<=lo<=hi<=40 (thorough: 130 at rule level, a band elsewhere) plus {lo,} at six levels "
+                "(rule, grouped rule, terminal, regex, nested rule, rule in context), counts 0..hi+3, through the "
+                "single-byte Matcher; JSON minItems/maxItems, minLength/maxLength (ASCII, 2/3/4-byte characters, escapes), "
+                "min/maxProperties for 0<=lo<=hi<=14 (thorough 40). Model side: counts admitted by the model of "
+                "grammar_builder::repeat with K read from the source, and the regex Rep semantics. "
+                "distinct = distinct (lo,hi,bound,kind); every case is non-trivial",
+        "trusted_base": ["modelled, not verified: parser/src/grammar_builder.rs select/join/optional/star/plus/at_most/"
+                         "repeat_exact/at_least/repeat as expression trees (memo caches at_most_cache/repeat_exact_cache "
+                         "not modelled: a wrong cache key shows up in the per-count comparison against the implementation)",
+                         "JSON size keywords (json/compiler.rs bounded_sequence etc.) are checked against the plain range "
+                         "specification only (implementation-only predicate), not modelled"],
+        "assumptions": ["the element literal is non-empty and unambiguous, so counting copies is well defined"],
+        "level_text": "Theorems for every lo<=hi, every K>=2 and every element language: the factorised encodings of "
+                      "x{lo,hi}, x{lo,}, x?, x*, x+ admit exactly the named counts, also nested; regex-level repetition via the "
+                      "derivative matcher. K is re-read from grammar_builder.rs each run. The implementation is compared "
+                      "count by count with the model (exhaustive triangle).",
+        "level_note": "Model is hand-written from grammar_builder.rs; Rust not verified. JSON length/size keywords: exhaustive "
+                      "differential check only (no theorem).",
+    },
+    "C04": {
+        "runner": "Run04",
+        "theorems": ["C04_match_iff_language", "C04_residual_is_left_quotient", "C04_derivative_step",
+                     "C04_normalisation_preserves_language", "C04_nullable_iff_empty_string", "C04_nonempty_has_witness",
+                     "C04_nonempty_exact_without_and_not", "C04_forced_end", "C04_literal"],
+        "rule": "random regex ASTs (literals incl. multi-byte characters, classes, concatenation, |, ?, *, +, {m,n}, &, ~) "
+                "printed as /regex/ or as Lark terminal expressions; strings = mask-guided walks on the implementation "
+                "(members), their mutations, random strings; single-byte and multi-byte vocabularies (tokens ending inside "
+                "a character). Verdicts (longest viable prefix, complete acceptance, allowed-token set after a prefix) "
+                "come from the extracted denotational matcher. distinct = distinct case text; non-trivial = all",
+        "trusted_base": ["modelled, not verified: the regex engine is the external crate derivre; its contract is the textbook "
+                         "semantics of coq/Regex.v, validated here on every run",
+                         "harness printing of the AST to Lark / Rust-regex syntax; regex-syntax parsing is exercised, not modelled",
+                         "%regex substring and the case-insensitive flag are not covered by a theorem (see DESIGN.md)"],
+        "assumptions": ["Unicode classes are not generated (ASCII classes + multi-byte literals only)"],
+        "level_text": "Theorems: the derivative matcher decides the denotation; residual = left quotient (so 'allowed token' = "
+                      "'some completion exists'); normalisation, nullability, emptiness and forced-end are exact/sound. "
+                      "The implementation is compared with that specification on complete strings, viable prefixes and masks.",
+        "level_note": "The theorem that the llguidance lexer+parser wrapped around a single lexeme realise exactly this "
+                      "specification is part of the engine refinement (EngineProofs, in progress); until then that step rests on "
+                      "the correspondence check.",
+    },
 }
